@@ -95,12 +95,16 @@ impl Number {
 
     #[inline]
     pub fn decode(bytes: &[u8]) -> Result<Number, Error> {
-        let mut len = bytes.len();
-        assert!(len > 0);
-        len -= 1;
+        if bytes.is_empty() {
+            return Err(Error::InvalidJsonbNumber);
+        }
+        let len = bytes.len() - 1;
 
         let ty = bytes[0];
         let num = match ty {
+            NUMBER_ZERO | NUMBER_NAN | NUMBER_INF | NUMBER_NEG_INF if len != 0 => {
+                return Err(Error::InvalidJsonbNumber);
+            }
             NUMBER_ZERO => Number::UInt64(0),
             NUMBER_NAN => Number::Float64(f64::NAN),
             NUMBER_INF => Number::Float64(f64::INFINITY),
@@ -123,7 +127,12 @@ impl Number {
                     return Err(Error::InvalidJsonbNumber);
                 }
             },
-            NUMBER_FLOAT => Number::Float64(f64::from_be_bytes(bytes[1..].try_into().unwrap())),
+            NUMBER_FLOAT => match len {
+                8 => Number::Float64(f64::from_be_bytes(bytes[1..].try_into().unwrap())),
+                _ => {
+                    return Err(Error::InvalidJsonbNumber);
+                }
+            },
             _ => {
                 return Err(Error::InvalidJsonbNumber);
             }
